@@ -22,7 +22,7 @@ func c10Setup(seed int64, idx int) (*tcCtx, influxql.Valuer, *tcNode) {
 	rg := mon.NewRng(seed, "c10", idx)
 	c := &tcCtx{rg: rg, now: fixedNow, extremes: true}
 	var valuer influxql.Valuer
-	switch rg.Intn(9) {
+	switch rg.Intn(10) {
 	case 5, 6:
 		// two zones with one name and different offsets
 		c.useNow = true
@@ -37,6 +37,12 @@ func c10Setup(seed int64, idx int) (*tcCtx, influxql.Valuer, *tcNode) {
 		c.useNow = true
 		c.loc, _ = time.LoadLocation("America/New_York")
 		valuer = influxql.MultiValuer(&influxql.NowValuer{Now: fixedNow}, influxql.MultiValuer(influxql.MapValuer{}, &influxql.NowValuer{Now: fixedNow.Add(time.Hour), Location: c.loc}))
+	case 9:
+		// an explicit UTC zone first, another zone behind it: UTC it is
+		c.useNow = true
+		c.loc = time.UTC
+		ny, _ := time.LoadLocation("America/New_York")
+		valuer = influxql.MultiValuer(&influxql.NowValuer{Now: fixedNow, Location: time.UTC}, &influxql.NowValuer{Now: fixedNow.Add(time.Hour), Location: ny})
 	case 0:
 		valuer = nil
 	case 1:
@@ -105,6 +111,18 @@ func c10One(c *Ctx, idx int, local map[string]int64) {
 	if err2 != nil || dumpOf(resid2) != dumpOf(resid) || !tr2.Min.Equal(tr.Min) || !tr2.Max.Equal(tr.Max) {
 		r.Violation("second-split-differs", det(fmt.Sprintf("splitting the same condition again gives range [%v, %v] residual %v (err %v); the first split gave [%v, %v] residual %v", tr2.Min, tr2.Max, resid2, err2, tr.Min, tr.Max, resid)))
 		return
+	}
+	// a reference keeps the cast it was written with
+	if resid != nil {
+		var orig influxql.Expr
+		mon.Try(func() { orig, _ = influxql.ParseExpr(text) })
+		have := tcRefTypes(orig)
+		for rt := range tcRefTypes(resid) {
+			if !have[rt] {
+				r.Violation("residual-changes-a-reference", det(fmt.Sprintf("the residual %s refers to %s, the condition does not (it has %v)", resid, rt, have)))
+				return
+			}
+		}
 	}
 	local["split-twice-equal"]++
 	overflow := false
